@@ -755,14 +755,14 @@ def run_one(binp, c):
     return None
 
 
-def shrink(binp, c, klass):
+def shrink(binp, c, klass, how=None):
     """delta-debug the operation list (and the drain) while the same class of violation is observed"""
     def fails(ops, drain=None):
         cc = dict(strip(c), ops=json.loads(json.dumps(ops)))
         if drain is not None:
             cc["drain"] = drain
         o = run_one(binp, cc)
-        return o is not None and any(s["class"] == klass for s, _ in monitor_case(cc, o))
+        return o is not None and any(s["class"] == klass and (how is None or s.get("how") == how) for s, _ in monitor_case(cc, o))
     ops = c["ops"]
     if not fails(ops):
         return c
@@ -845,6 +845,7 @@ def run(ctx):
         cases, obs = cases + derived, obs + obs2
     items, idx = [], []
     reported = set()
+    known_tries = {}
     for c, o in zip(cases, obs):
         tr = o.get("trace", [])
         nfwd = sum(len(e["fwd"]) for e in tr)
@@ -883,14 +884,21 @@ def run(ctx):
             ctx.count("hist-with-stop-trim-below-cache")
         viol = monitor_case(c, o)
         for sig, what in viol:
-            if sig["class"] in reported:
+            how = sig.get("how") if sig["class"] == "cross-attention-mismatch" else None
+            # one report per class; a class whose reports so far all matched a known finding gets up to 3 more looks, so that
+            # a known finding does not hide another cause of the same class
+            rk = (sig["class"], how)
+            if rk in reported or known_tries.get(rk, 0) >= 4:
                 continue
-            reported.add(sig["class"])
-            small = shrink(binp, c, sig["class"])
+            small = shrink(binp, c, sig["class"], how)
             so = run_one(binp, small) or o
             attach_ops(small, so)
-            sv = [x for x in monitor_case(small, so) if x[0]["class"] == sig["class"]] or [(sig, what)]
+            sv = [x for x in monitor_case(small, so) if x[0]["class"] == sig["class"] and (how is None or x[0].get("how") == how)] or [(sig, what)]
             fsig = dict(sv[0][0], **features(small, so))
+            if vlib.match_known(ctx.known, fsig):
+                known_tries[rk] = known_tries.get(rk, 0) + 1
+            else:
+                reported.add(rk)
             ctx.violation(fsig, sv[0][1], {"case": small, "impl": so, "all": [w for _, w in monitor_case(small, so)][:10]})
         if "init_err" in o or not tr:
             continue
